@@ -18,6 +18,9 @@ class DecimalNumber(Number, SerializableField):
             raise TypeError(f"{self._name}: {ex.args[0]}") from ex
         except InvalidOperation as ex:
             raise ValueError(f"{self._name}: {ex.args[0]}") from ex
+        if value.is_snan():
+            # a signaling NaN raises InvalidOperation in every later comparison (uniqueItems, ==, hash)
+            raise ValueError(f"{self._name}: Got {value}; a signaling NaN is not a number")
 
         try:
             super().__set__(instance, value)
